@@ -22,7 +22,7 @@ TRUSTED = [
     "(name index -> file; the open stream follows the file, not the name); the only OS error is ENOENT",
     "not modelled: external truncation of, or writes by others into, the live file (a 'wb' stream would leave a hole); "
     "disk-full and permission errors; SyslogHandler; BoundIO (C08)",
-    "the handlers are driven directly and behind a real POutputDispatcher (stdout and stderr logs, removelogs/reopenlogs); a whole daemon run with a forked child is not part of this check",
+    "the handlers are driven directly and behind a real POutputDispatcher (stdout and stderr logs, with and without capture, removelogs/reopenlogs in both modes); which bytes the dispatcher hands to the normal log (tag matching, hold-back) is C07/C08's subject: here the calls of normallog.info are observed at the logger seam and only checked to be a prefix of the output outside capture sections; the capture log itself is an in-memory BoundIO (C08), not a file; a whole daemon run with a forked child is not part of this check",
 ]
 ASSUMPTIONS = [
     "one handler per log file (supervisor never opens two handlers on the same path)",
@@ -30,7 +30,7 @@ ASSUMPTIONS = [
 ]
 RULE = ("cases = (rotating?, maxbytes, backups, op sequence); maxbytes in {0,1,2,3,5,8,16,40}, backups in {0,1,2,3,5}; "
         "write sizes 0, 1, maxbytes-1, maxbytes, maxbytes+1, 2*maxbytes(+1) and small random; four op mixes: writes only, "
-        "+reopen, +clear, +external remove/replace of any name index 0..backups+1; about 30% of the random cases go through a real POutputDispatcher (child stdout/stderr log); payload bytes are a running counter so that "
+        "+reopen, +clear, +external remove/replace of any name index 0..backups+1; a fifth population drives dispatchers with capture enabled (chunks with BEGIN/END tags; clear, reopen and external removal/replacement both in ordinary mode and inside a capture section; the model is fed the bytes the dispatcher hands to the normal log); about 30% of the random cases go through a real POutputDispatcher (child stdout/stderr log); payload bytes are a running counter so that "
         "file contents identify their place in the history; non-trivial = at least one rollover or clear or external op happened; "
         "distinct = distinct (config, op list)")
 
@@ -105,6 +105,12 @@ class Real:
             err += ' swallowed-exception'
         return err
 
+    def run_op(self, o):
+        """-> [(model line, operation as the monitor sees it, listing, other names, error part)]"""
+        err = self.op(o)
+        ls, other = self.listing()
+        return [(op_line(o), o, ls, other, err)]
+
     def listing(self):
         res, other = {}, []
         for fn in os.listdir(self.root):
@@ -122,7 +128,7 @@ class Real:
 class RealL2(Real):
     """the same handlers behind a real POutputDispatcher (a child's stdout or stderr log): chunks arrive through
     handle_read_event(), clearProcessLogs -> removelogs(), SIGUSR2 -> reopenlogs()"""
-    def __init__(self, root, rotating, maxbytes, backups, channel='stdout'):
+    def __init__(self, root, rotating, maxbytes, backups, channel='stdout', capture=0):
         from supervisor import loggers, events
         from supervisor.dispatchers import POutputDispatcher
         from supervisor.tests.base import DummyOptions, DummyProcess, DummyPConfig
@@ -133,13 +139,68 @@ class RealL2(Real):
         options = DummyOptions()
         options.getLogger = loggers.getLogger          # the real logger factory (ServerOptions.getLogger)
         kw = {channel + '_logfile': self.path, channel + '_logfile_maxbytes': maxbytes if rotating else 0,
-              channel + '_logfile_backups': backups}
+              channel + '_logfile_backups': backups, channel + '_capture_maxbytes': capture}
         config = DummyPConfig(options, 'proc', '/bin/proc', **kw)
         self.options = options
         self.disp = POutputDispatcher(DummyProcess(config),
                                       events.ProcessCommunicationStdoutEvent if channel == 'stdout'
                                       else events.ProcessCommunicationStderrEvent, 0)
         self.logger = self.disp.normallog
+        self.BEGIN, self.END = events.ProcessCommunicationEvent.BEGIN_TOKEN, events.ProcessCommunicationEvent.END_TOKEN
+        self.stream = b''           # everything the child has written so far
+        self.handed = b''           # everything the dispatcher handed to the normal log so far
+        self.subs = []
+        # observe the logger seam: every normallog.info(data) call with the directory as it is right after it
+        orig = self.disp.normallog.info
+        def info(data, **kw):
+            r = orig(data, **kw)
+            ls, other = self.listing()
+            self.subs.append((bytes(data), ls, other))
+            return r
+        self.disp.normallog.info = info
+
+    def in_capture(self):
+        """is the child inside a capture section?  computed from the bytes sent, not from the dispatcher"""
+        mode, rest = False, self.stream
+        while True:
+            tok = self.END if mode else self.BEGIN
+            i = rest.find(tok)
+            if i < 0:
+                return mode
+            mode, rest = not mode, rest[i + len(tok):]
+
+    def plain_expected(self):
+        """the bytes of the stream outside capture sections (tags excluded)"""
+        out, mode, rest = b'', False, self.stream
+        while True:
+            tok = self.END if mode else self.BEGIN
+            i = rest.find(tok)
+            if i < 0:
+                return out + (b'' if mode else rest)
+            if not mode:
+                out += rest[:i]
+            mode, rest = not mode, rest[i + len(tok):]
+
+    def run_op(self, o):
+        if o[0] == 'chunk':
+            del self.subs[:]
+            self.stream += o[1]
+            err = self.op(('write', o[1]))
+            res = [('write ' + hexs(d), ('write', d), ls, other, 'ok') for d, ls, other in self.subs]
+            self.handed += b''.join(d for d, _, _ in self.subs)
+            if err != 'ok':
+                ls, other = self.listing()
+                if res:
+                    res[-1] = res[-1][:4] + (err,)
+                else:
+                    res = [(None, ('noop',), ls, other, err)]        # nothing reached the log, but the read raised
+            return res
+        if o[0] in ('clear', 'reopen'):
+            mode = self.in_capture()
+            err = self.op(o)
+            ls, other = self.listing()
+            return [('%s %d' % ('dclear' if o[0] == 'clear' else 'dreopen', 1 if mode else 0), o, ls, other, err)]
+        return Real.run_op(self, o)
 
     def op(self, o):
         if o[0] not in ('write', 'clear', 'reopen'):
@@ -169,6 +230,7 @@ class RealL2(Real):
 
 def op_line(o):
     if o[0] == 'write': return 'write ' + hexs(o[1])
+    if o[0] == 'chunk': return 'chunk ' + hexs(o[1])
     if o[0] == 'extremove': return 'extremove %d' % o[1]
     if o[0] == 'extreplace': return 'extreplace %d %s' % (o[1], hexs(o[2]))
     return o[0]
@@ -302,7 +364,7 @@ def list_op(o):
 
 
 def unlist_op(l):
-    if l[0] == 'write': return ('write', bytes.fromhex(l[1]))
+    if l[0] in ('write', 'chunk'): return (l[0], bytes.fromhex(l[1]))
     if l[0] == 'extreplace': return ('extreplace', l[1], bytes.fromhex(l[2]))
     if l[0] == 'extremove': return ('extremove', l[1])
     return (l[0],)
@@ -320,38 +382,45 @@ class Runner:
         show = max(cfg['backups'], 0) + 2
         if cfg.get('l2'):
             real = RealL2(os.path.join(tempfile.mkdtemp(dir=ctx.scratch), 'd'), cfg['rotating'], cfg['maxbytes'], cfg['backups'],
-                          channel=cfg['l2'])
-            ctx.count('through-dispatcher:' + cfg['l2'])
+                          channel=cfg['l2'], capture=cfg.get('capture', 0))
+            ctx.count('through-dispatcher:' + cfg['l2'] + (':capture-enabled' if cfg.get('capture') else ''))
         else:
             real = Real(os.path.join(tempfile.mkdtemp(dir=ctx.scratch), 'd'), cfg['rotating'], cfg['maxbytes'], cfg['backups'],
                         text=cfg.get('text', False), direct=cfg.get('direct', False))
         mon = Monitor(ctx, cfg, ops)
-        lines = []
+        lines, model_ops = [], []
         nontrivial = False
         try:
-            for k, o in enumerate(ops):
+            for k, ho in enumerate(ops):
+                ctx.count('op:' + ho[0])
                 before, _ = real.listing()
-                err = real.op(o)
-                ls, other = real.listing()
-                lines.append(canon(ls, other, err, show))
-                ctx.count('op:' + o[0])
-                if o[0] == 'write':
-                    rolled = ls.get(0, b'') != before.get(0, b'') + o[1]
-                    ctx.count('write:' + ('rollover-or-detached' if rolled else 'append'))
-                    nontrivial = nontrivial or rolled
-                    mb = cfg['maxbytes']
-                    ctx.count('write-size:' + ('0' if not o[1] else '<mb' if len(o[1]) < mb else '=mb' if len(o[1]) == mb else '>mb'))
-                else:
-                    nontrivial = True
-                if monitor:
-                    mon.step(k, o, ls, other, err)
+                if ho[0] in ('clear', 'reopen') and cfg.get('capture'):
+                    ctx.count('%s:%s' % (ho[0], 'inside-capture-section' if real.in_capture() else 'ordinary-mode'))
+                for mline, o, ls, other, err in real.run_op(ho):
+                    if mline is not None:
+                        model_ops.append(mline)
+                        lines.append(canon(ls, other, err, show))
+                    if o[0] == 'write':
+                        rolled = ls.get(0, b'') != before.get(0, b'') + o[1]
+                        ctx.count('write:' + ('rollover-or-detached' if rolled else 'append'))
+                        nontrivial = nontrivial or rolled
+                        mb = cfg['maxbytes']
+                        ctx.count('write-size:' + ('0' if not o[1] else '<mb' if len(o[1]) < mb else '=mb' if len(o[1]) == mb else '>mb'))
+                    else:
+                        nontrivial = True
+                    if monitor:
+                        mon.step(k, o, ls, other, err)
+                    before = ls
+                if ho[0] == 'chunk' and monitor and not real.plain_expected().startswith(real.handed):
+                    mon.k = k
+                    mon.bad('plain-output-misrouted', 'the bytes handed to the log are not the child output outside capture sections')
         finally:
             real.close()
         ctx.count('cfg:%s mb=%d' % ('rot' if cfg['rotating'] else 'plain', cfg['maxbytes']))
         ctx.count('backups=%d' % cfg['backups'])
         ctx.case_done((sorted(cfg.items()), [list_op(o) for o in ops]), nontrivial)
         self.cases.append(('case rotate rotating=%d maxbytes=%d backups=%d show=%d' % (
-            1 if cfg['rotating'] else 0, cfg['maxbytes'], cfg['backups'], show), [op_line(o) for o in ops]))
+            1 if cfg['rotating'] else 0, cfg['maxbytes'], cfg['backups'], show), model_ops))
         self.impls.append(lines)
         return lines
 
@@ -406,6 +475,53 @@ def gen_case(rng, mix):
     return cfg, ops
 
 
+BEGIN, END = b'<!--XSUPERVISOR:BEGIN-->', b'<!--XSUPERVISOR:END-->'
+
+
+class PlainPayload(Payload):
+    """counter bytes without '<' (no accidental tag prefixes), for streams that go through capture-tag matching"""
+    def take(self, n):
+        b = bytes((self.c + i) % 190 + 61 for i in range(n))
+        self.c += n
+        return b
+
+
+def gen_capture_case(rng):
+    """a child's log behind a dispatcher with capture enabled: clear / reopen / external interference happen both in
+    ordinary mode and inside a capture section"""
+    mb = rng.choice([30, 64, 100]) if rng.random() < 0.9 else 0
+    N = rng.choice([0, 1, 2])
+    cfg = {'rotating': mb > 0, 'maxbytes': mb, 'backups': N, 'l2': rng.choice(['stdout', 'stderr']), 'capture': rng.choice([10, 50])}
+    pay = PlainPayload()
+    ops, mode = [], False
+    for _ in range(rng.randrange(6, 26)):
+        r = rng.random()
+        if r < 0.5:
+            if not mode:
+                d = pay.take(rng.choice([1, 5, 24, 25, 26, 40, 70]))
+                if rng.random() < 0.45:
+                    d += BEGIN + b'C' * rng.randrange(1, 12); mode = True
+            else:
+                d = b'C' * rng.randrange(1, 30)
+                if rng.random() < 0.55:
+                    d += END + pay.take(rng.choice([1, 5, 26, 40])); mode = False
+            ops.append(('chunk', d))
+        elif r < 0.64:
+            ops.append(('reopen',))
+        elif r < 0.74:
+            ops.append(('clear',))
+        else:
+            i = 0 if rng.random() < 0.7 else rng.randrange(0, N + 2)
+            ops.append(('extremove', i) if rng.random() < 0.6 else ('extreplace', i, b'X' * rng.choice([0, 3, mb or 7])))
+            if rng.random() < 0.75:
+                ops.append(('reopen',) if rng.random() < 0.7 else ('clear',))
+    return cfg, ops
+
+
+def C(s):
+    return ('chunk', s if isinstance(s, bytes) else s.encode())
+
+
 def W(s):
     return ('write', s if isinstance(s, bytes) else s.encode())
 
@@ -432,6 +548,16 @@ CORPUS = [
     ({'rotating': True, 'maxbytes': 6, 'backups': 2, 'l2': 'stdout'}, [W('abcd'), W('efgh'), ('clear',), W('ijklmnop'), ('reopen',), W('q'), ('extremove', 0), W('rs'), ('reopen',), W('tuvwxyz')]),
     ({'rotating': True, 'maxbytes': 4, 'backups': 1, 'l2': 'stderr'}, [W('abc'), W('defgh'), W('i'), ('reopen',), W('jkl'), ('clear',), W('m')]),
     ({'rotating': False, 'maxbytes': 0, 'backups': 2, 'l2': 'stdout'}, [W('abc'), W('d' * 30), ('reopen',), W('e'), ('clear',), W('f')]),
+    # capture enabled; SIGUSR2 / clearProcessLogs arrive *inside* a capture section after the log was removed or
+    # replaced from outside: the normal log must be reopened (seeded bug: reopenlogs() walking only childlog.handlers)
+    ({'rotating': True, 'maxbytes': 40, 'backups': 1, 'l2': 'stdout', 'capture': 50},
+     [C(b'a' * 30), C(b'b' * 5 + BEGIN + b'CCC'), ('extremove', 0), ('reopen',), C(b'CC' + END + b'd' * 35), C(b'e' * 30)]),
+    ({'rotating': True, 'maxbytes': 40, 'backups': 1, 'l2': 'stderr', 'capture': 50},
+     [C(b'a' * 30), C(b'b' * 5 + BEGIN + b'CCC'), ('extreplace', 0, b'XXX'), ('clear',), C(b'CC' + END + b'd' * 35), C(b'e' * 30)]),
+    ({'rotating': True, 'maxbytes': 64, 'backups': 2, 'l2': 'stdout', 'capture': 10},
+     [C(b'a' * 70), ('reopen',), C(b'b' * 26 + BEGIN + b'C'), ('reopen',), ('clear',), C(b'C' + END + b'c' * 30), ('extremove', 0), ('reopen',), C(b'd' * 40)]),
+    ({'rotating': False, 'maxbytes': 0, 'backups': 0, 'l2': 'stdout', 'capture': 10},
+     [C(b'a' * 30 + BEGIN + b'C'), ('extremove', 0), ('reopen',), C(b'C' + END + b'b' * 30), C(b'c' * 30)]),
     # activity-log style formatting (text message, encoded by the handler)
     ({'rotating': True, 'maxbytes': 16, 'backups': 1, 'text': True}, [W('INFO hello\n'), W('INFO world\n'), W('INFO \n')]),
 ]
@@ -457,6 +583,10 @@ def run(ctx):
             cfg, ops = gen_case(rng, mix)
             R.one(cfg, ops)
             ctx.count('mix:' + mix)
+    for _ in range(ctx.n(150, 2500)):
+        cfg, ops = gen_capture_case(rng)
+        R.one(cfg, ops)
+        ctx.count('mix:capture')
     for k in (0, 5, 7, len(R.cases) - 1):
         ctx.sample({'case': R.cases[k][0], 'ops': R.cases[k][1][:6], 'impl': R.impls[k][:6]})
     ctx.correspond('rotate', R.cases, R.impls)
